@@ -9,13 +9,19 @@ namespace Spowtd
 variable {α : Type} [Num α]
 
 theorem classify_shift (pick : List Nat → Nat) (s j : α) (db : Loaded α) (k : Int) :
-    classifyAll pick s j (db.shift k) = (classifyAll pick s j db).map (fun c => c.shift k) := by
-  sorry
+    classifyAll pick s j (db.shift k) = (classifyAll pick s j db).map (fun c => c.shift k) :=
+  classifyAll_shift pick s j db k
 
 /-- flags and pairing are literally unchanged apart from the epoch keys -/
 theorem flags_shift_invariant (pick : List Nat → Nat) (s j : α) (db : Loaded α) (k : Int)
     (c c' : Classified) (h : classifyAll pick s j db = .ok c) (h' : classifyAll pick s j (db.shift k) = .ok c') :
     c'.flags.map (·.2) = c.flags.map (·.2) ∧ c'.pairs.length = c.pairs.length ∧ c'.strict = c.strict := by
-  sorry
+  rw [classify_shift, h] at h'
+  have e : c' = c.shift k := by injection h' with h'; exact h'.symm
+  subst e
+  refine ⟨?_, List.length_map _, rfl⟩
+  show List.map _ (List.map _ c.flags) = _
+  rw [List.map_map]
+  rfl
 
 end Spowtd
